@@ -159,8 +159,14 @@ fn class_of(s: &str) -> String {
             "upper".to_string()
         } else if c.is_ascii_digit() {
             "digit".to_string()
-        } else {
+        } else if (c as u32) < 0x20 || c as u32 == 0x7f {
+            "control".to_string()
+        } else if (c as u32) < 0x80 {
             format!("{:?}", c)
+        } else if (c as u32) < 0x100 {
+            "latin1".to_string()
+        } else {
+            "beyond-latin1".to_string()
         };
         if !cls.contains(&k) {
             cls.push(k);
@@ -230,6 +236,55 @@ pub fn check_token(s: &str, acc: &mut Acc) {
                 }
             }
             (false, None) => {}
+        }
+    }
+}
+
+/// all paths when `full`, else the three cheapest distinct entry points
+fn check_token_light(s: &str, full: bool, acc: &mut Acc) {
+    if full {
+        return check_token(s, acc);
+    }
+    acc.states += 1;
+    let expect = model_token(s);
+    if expect { acc.accepted += 1 } else { acc.rejected += 1 }
+    let doc = serde_json::to_string(s).unwrap();
+    for (path, got) in [
+        ("from_str", BearerToken::from_str(s).is_ok()),
+        ("from_plain", BearerToken::from_plain(s).is_ok()),
+        ("json_server", conjure_serde::json::server_from_str::<BearerToken>(&doc).is_ok()),
+    ] {
+        acc.evaluations += 1;
+        if got != expect {
+            acc.viol.push((
+                format!("C16|token|{}|{}|chars={}", path, if expect { "valid-rejected" } else { "invalid-accepted" }, class_of(s)),
+                format!("bearer token {:?}: {} says {}, grammar says {}", s, path, got, expect),
+                json!({"kind": "token", "input": s, "path": path}),
+            ));
+        }
+    }
+}
+
+fn check_rid_light(s: &str, full: bool, acc: &mut Acc) {
+    if full {
+        return check_rid(s, acc);
+    }
+    acc.states += 1;
+    let expect = model_rid(s).is_some();
+    if expect { acc.accepted += 1 } else { acc.rejected += 1 }
+    let doc = serde_json::to_string(s).unwrap();
+    for (path, got) in [
+        ("from_str", ResourceIdentifier::from_str(s).is_ok()),
+        ("from_plain", ResourceIdentifier::from_plain(s).is_ok()),
+        ("json_server", conjure_serde::json::server_from_str::<ResourceIdentifier>(&doc).is_ok()),
+    ] {
+        acc.evaluations += 1;
+        if got != expect {
+            acc.viol.push((
+                format!("C16|rid|{}|{}|chars={}", path, if expect { "valid-rejected" } else { "invalid-accepted" }, class_of(s)),
+                format!("rid {:?}: {} says {}, grammar says {}", s, path, got, expect),
+                json!({"kind": "rid", "input": s, "path": path}),
+            ));
         }
     }
 }
@@ -387,14 +442,14 @@ pub fn check_components(c: [&str; 4], acc: &mut Acc) {
 // ---------------------------------------------------------------- spaces
 
 const TOKEN_ALPHABET: &[&str] = &[
-    "a", "Z", "0", "-", ".", "_", "~", "+", "/", "=", " ", "\n", "é", "*", "@", "\0",
+    "a", "Z", "0", "-", ".", "_", "~", "+", "/", "=", " ", "\n", "é", "*", "@", "\0", "\u{142}", "\u{ff41}",
 ];
 
 /// symbols from which rid-like strings are assembled
 const RID_SYMBOLS_QUICK: &[&str] = &["ri", ".", "a", "0", "-", "A"];
 const RID_SYMBOLS: &[&str] = &["ri", ".", "a", "0", "-", "A", "\n"];
 
-const COMPONENT_ALPHABET: &[&str] = &["a", "z", "0", "-", "_", ".", "A", "\n", "é"];
+const COMPONENT_ALPHABET: &[&str] = &["a", "z", "0", "-", "_", ".", "A", "\n", "é", "\u{161}"];
 
 fn words(alphabet: &[&str], max_len: usize) -> Vec<String> {
     let mut out = vec![];
@@ -461,6 +516,36 @@ pub fn run(args: &Args) -> Report {
     // tokens: all strings of length <= n over the boundary alphabet
     let acc = par_words(TOKEN_ALPHABET, n, check_token);
     flush(&mut report, "token", acc);
+
+    // every Unicode scalar value in every position class of a token and of each rid component
+    let acc = (0u32..=0x10ffff)
+        .into_par_iter()
+        .fold(Acc::default, |mut acc, cp| {
+            let c = match char::from_u32(cp) {
+                Some(c) => c,
+                None => return acc,
+            };
+            for s in [format!("{}", c), format!("a{}", c), format!("{}a", c), format!("a{}=", c)] {
+                check_token_light(&s, cp < 0x800, &mut acc);
+            }
+            for s in [
+                format!("ri.{}.a.a.a", c),
+                format!("ri.a{}.a.a.a", c),
+                format!("ri.a.{}.a.a", c),
+                format!("ri.a.a{}.a.a", c),
+                format!("ri.a.a.{}.a", c),
+                format!("ri.a.a.a{}.a", c),
+                format!("ri.a.a.a.{}", c),
+                format!("ri.a.a.a.a{}", c),
+                format!("r{}.a.a.a.a", c),
+                format!("ri{}a.a.a.a", c),
+            ] {
+                check_rid_light(&s, cp < 0x800, &mut acc);
+            }
+            acc
+        })
+        .reduce(Acc::default, Acc::merge);
+    flush(&mut report, "unicode_scalar_sweep", acc);
 
     // rids A: all symbol words up to `sym` symbols
     let acc = par_words(rid_symbols, sym, check_rid);
@@ -534,6 +619,7 @@ pub fn run(args: &Args) -> Report {
     report.bound("component_alphabet", json!(COMPONENT_ALPHABET));
     report.bound("component_max_len", m);
     report.bound("entry_paths", json!(TOKEN_PATHS));
+    report.bound("unicode_scalar_sweep", "every Unicode scalar value at 4 token positions and 10 rid positions (all 8 paths below U+0800, from_str/from_plain/json_server above)");
     let _ = RID_PATHS;
     report.rule = "every string over the stated alphabets up to the stated length (tokens: characters; rids: symbols and template x component products) is pushed through every entry path and compared with a hand-written recogniser; non-trivial = strings the recogniser accepts (each also exercises every render-back path)".into();
     report.assumptions.push("strings longer than the bound / characters outside the alphabets behave like the representative of their class".into());
